@@ -280,6 +280,62 @@ def ob_append_tg(namesA, namesB, only, timeout):
     )
 
 
+def ob_append_tg_empty(only, timeout):
+    """tiers without entries take part in appendTextgrid like any other tier"""
+    names = ["hia", "hib", "s0", "e0"]
+
+    def pre(hia, hib, s0, e0):
+        return (0.0 <= s0) & (s0 < e0) & (e0 <= hib) & within(0.0, 512.0, hia, hib)
+
+    def body(hia, hib, s0, e0):
+        A = Textgrid(0.0, hia)
+        A.addTier(IntervalTier("both", [], 0.0, hia))
+        A.addTier(IntervalTier("emptyA", [], 0.0, hia))
+        A.addTier(IntervalTier("emptyboth", [], 0.0, hia))
+        B = Textgrid(0.0, hib)
+        B.addTier(IntervalTier("both", [Interval(s0, e0, "y")], 0.0, hib))
+        B.addTier(PointTier("emptyB", [], 0.0, hib))
+        B.addTier(IntervalTier("emptyboth", [], 0.0, hib))
+        r = A.appendTextgrid(B, only)
+        want = ["both", "emptyboth"] if only else ["both", "emptyA", "emptyboth", "emptyB"]
+        if list(r.tierNames) != want:
+            return "tier set/order with empty tiers"
+        if tuples(r.getTier("both").entries) != [(s0 + hia, e0 + hia, "y")]:
+            return "entries appended to an empty tier are shifted by A's end"
+        for n in want:
+            t = r.getTier(n)
+            if n in ("both", "emptyboth", "emptyB") and t.maxTimestamp != hia + hib:
+                return "span of tier " + n
+            if n in ("emptyA", "emptyboth") and len(t.entries) != 0:
+                return "empty tier gained entries"
+        if not only and not isinstance(r.getTier("emptyB"), PointTier):
+            return "tier type"
+        return True
+
+    return Ob("appendtg-empty-tiers-%s" % ("only" if only else "all"), F(*names), body, pre, fmode="real", timeout=timeout, setup=_setup, funcs=FUNCS[3:4], bounds="A: three empty tiers; B: one tier with an entry, two empty (one of them a point tier)")
+
+
+def ob_span_tests_ieee(timeout):
+    """binary64: leaving the span is tested exactly (no tolerance): an entry that moves past
+    the old boundary by one ulp is reported"""
+
+    def body(t, ref):
+        calls = []
+
+        def rep(exc, text):
+            calls.append(exc)
+
+        o = utils.checkIsOvershoot(t, ref, rep)
+        u = utils.checkIsUndershoot(t, ref, rep)
+        if o != (t > ref) or u != (t < ref):
+            return "overshoot/undershoot test is not exact"
+        if len(calls) != (1 if t != ref else 0) or any(c is not errors.OutOfBounds for c in calls):
+            return "reporter called iff the time leaves the span"
+        return True
+
+    return Ob("span-tests-exact-ieee", F("t", "ref"), body, lambda t, ref: finite(t, ref), fmode="ieee", timeout=timeout, funcs=FUNCS[5:6], bounds="all finite binary64 pairs")
+
+
 def ob_tg_shift(rmode, timeout):
     names = ["off", "hi", "s0", "e0", "t0"]
 
@@ -330,6 +386,9 @@ def obligations(tier):
         for only in (True, False):
             obs.append(ob_append_tg(["a", "b"], ["b", "c"], only, 240))
         obs.append(ob_append_tg(["a"], ["a"], False, 120))
+        for only in (True, False):
+            obs.append(ob_append_tg_empty(only, 120))
+        obs.append(ob_span_tests_ieee(120))
         obs.append(ob_tg_shift("silence", 180))
         obs.append(ob_tg_shift("error", 180))
     else:
@@ -345,6 +404,9 @@ def obligations(tier):
                 for kb in (0, 1, 2):
                     obs.append(ob_append_tier(kind, ka, kb, 600))
         obs.append(ob_append_mixed(30))
+        obs.append(ob_span_tests_ieee(600))
+        for only in (True, False):
+            obs.append(ob_append_tg_empty(only, 600))
         for only in (True, False):
             for A, B in ((["a", "b"], ["a", "b"]), (["a", "b"], ["b", "a"]), (["a", "b"], ["b", "c"]), (["a", "b"], ["c", "d"]), (["a"], ["a"]), ([], ["a"]), (["a"], [])):
                 obs.append(ob_append_tg(A, B, only, 900))
